@@ -104,9 +104,17 @@ def run(ctx):
         q = impl.segno.QRCode(code)
         size = len(code.matrix)
         rows = '/'.join(''.join('1' if b else '0' for b in r) for r in code.matrix)
-        for k in range(0, 12):
-            for light in ('#fff', None):
-                kw = {o: palette[i] for i, o in enumerate(rng.sample(opts_all, k))}
+        configs = [({o: palette[i] for i, o in enumerate(rng.sample(opts_all, k))}, light) for k in range(0, 12) for light in ('#fff', None)]
+        # directed: colour maps with exactly TWO distinct colours in which a module type gets the colour of the opposite side (a
+        # writer that falls back to the plain 0/1 iteration for two-colour images loses the per-type option), singly and in pairs
+        WHITE, BLACK = (255, 255, 255), (0, 0, 0)
+        opp = lambda o: WHITE if (o.endswith('_dark') or o == 'dark_module') else BLACK
+        configs += [({o: opp(o)}, '#fff') for o in opts_all]
+        configs += [({o: opp(o) for o in rng.sample(opts_all, 2)}, '#fff') for _ in range(4)]
+        configs += [({o: opp(o)}, None) for o in ('finder_dark', 'data_dark', 'timing_dark', 'dark_module')]
+        for kw, light in configs:
+            if True:
+                k = len(kw) if not set(kw.values()) <= {WHITE, BLACK} else 100 + len(kw)
                 border = rng.choice([0, 1, 2])
                 scale = rng.choice([1, 2])
                 exp_types = [[int(x) for x in r.split(',')] for r in common.oracle(['classify %d %d %s' % (size, border, rows)])[0].split('/')]
@@ -163,7 +171,8 @@ def run(ctx):
                             break
                     if bad:
                         failures.append({'input': {'version': version, 'kind': kind, 'options': {a: list(b) for a, b in kw.items()}, 'light': light,
-                                                   'scale': scale, 'border': border, 'pixel': bad[:2]},
+                                                   'scale': scale, 'border': border, 'pixel': bad[:2],
+                                                   'matrix': [''.join(map(str, r)) for r in code.matrix]},
                                          'observed': 'colour %s' % (bad[2],), 'expected': 'colour %s configured for the module type' % (bad[3],)})
     # known-finding predicate (extracted Gallina) decides which deviations are the listed one
     if kf_queries:
@@ -185,8 +194,36 @@ def run(ctx):
             'searched': 'all 44 sizes x %d (scale, border) grids, every cell' % len(combos)}
 
 
+def _read_pixels(data, kind):
+    import struct as _struct, zlib as _zlib
+    if kind == 'png':
+        pos, comp = 8, b''
+        while pos < len(data):
+            ln = _struct.unpack('>I', data[pos:pos + 4])[0]
+            if data[pos + 4:pos + 8] == b'IDAT':
+                comp += data[pos + 8:pos + 8 + ln]
+            pos += 12 + ln
+        ans = common.oracle(['r_png %s %s %s' % (data.hex(), comp.hex(), _zlib.decompress(comp).hex())])[0]
+    else:
+        ans = common.oracle(['r_ppm ' + data.hex()])[0]
+    if not ans.startswith('OK'):
+        return None
+    return [[tuple(int(v) for v in c.split('.')) for c in r2.split(',')] for r2 in ans.split(' ')[-1].split('/')]
+
+
 def replay(rec):
     inp = rec['input']
+    if 'kind' in inp and 'matrix' in inp and 'pixel' in inp:
+        import io as _io
+        m = tuple(bytearray(int(c) for c in row) for row in inp['matrix'])
+        out = _io.BytesIO()
+        kw = {a: tuple(b) for a, b in inp['options'].items()}
+        impl.segno.writers.save(m, (len(m), len(m)), out, kind=inp['kind'], scale=inp['scale'], border=inp['border'], light=inp['light'], **kw)
+        px = _read_pixels(out.getvalue(), inp['kind'])
+        y, x = inp['pixel']
+        got = 'colour %s' % (px[y][x],) if px else 'independent reader rejects the file'
+        print('%s pixel (%d,%d) with options %r light=%r: observed %s, expected %s' % (inp['kind'], y, x, inp['options'], inp['light'], got, rec['expected']))
+        return 0 if px and rec['expected'].startswith(got + ' ') else 1
     m = tuple(bytearray(int(c) for c in row) for row in inp['matrix'])
     size = len(m)
     grid = [list(r) for r in impl.utils.matrix_iter_verbose(m, (size, size), inp['scale'], inp['border'])]
